@@ -67,6 +67,9 @@ type Prop[C any] struct {
 	Known    []Known[C]
 	// Sample renders a case for the evidence file (default: the case itself).
 	Sample func(C) any
+	// HangSeconds > 0: an oracle call running longer than this is a violation
+	// of kind "hang" (the case is persisted and the process exits with status 3).
+	HangSeconds int
 }
 
 type replayFile struct {
@@ -365,7 +368,18 @@ func Run[C any](t *testing.T, p Prop[C]) {
 			_ = os.WriteFile(j, b, 0o644)
 		}
 		ctx := &Ctx{}
+		var wd *time.Timer
+		if p.HangSeconds > 0 {
+			wd = time.AfterFunc(time.Duration(p.HangSeconds)*time.Second, func() {
+				path := writeReplay(p.Name+"-hang", c, fmt.Sprintf("no result after %d s (hang)", p.HangSeconds))
+				fmt.Printf("HANG %s\n", path)
+				os.Exit(3)
+			})
+		}
 		err := safeOracle(p.Oracle, c, ctx)
+		if wd != nil {
+			wd.Stop()
+		}
 		record(p.Name, ctx, func() any { return p.Sample(c) })
 		if err != nil {
 			lastMsg = err.Error()
@@ -391,6 +405,7 @@ func trunc(s string, n int) string {
 }
 
 func writeReplay[C any](name string, c C, msg string) string {
+	name, hang := strings.CutSuffix(name, "-hang")
 	dir := os.Getenv("VERIF_FAIL_DIR")
 	if dir == "" {
 		dir = os.TempDir()
@@ -400,6 +415,9 @@ func writeReplay[C any](name string, c C, msg string) string {
 	rf := replayFile{Property: propID, Test: name, Case: cb, Observed: trunc(msg, 4000)}
 	b, _ := json.MarshalIndent(&rf, "", " ")
 	path := filepath.Join(dir, fmt.Sprintf("%s-%016x.json", name, hash64(string(cb))))
+	if hang {
+		path = filepath.Join(dir, fmt.Sprintf("hang-%s-%016x.json", name, hash64(string(cb))))
+	}
 	_ = os.WriteFile(path, b, 0o644)
 	return path
 }
